@@ -805,10 +805,14 @@ def replay(case, site=None):
     from ..core import Acc
 
     acc = Acc(ID, [], stop_at_first=False)
-    if "weight_invariance" in case:
-        check_weight_invariances(acc, only=case)
-    elif "wide1" in case:
-        check_wide1(case["wide1"], acc)
+    if "weight_invariance" in case or "wide1" in case:
+        if "weight_invariance" in case:
+            check_weight_invariances(acc, only=case)
+        else:
+            check_wide1(case["wide1"], acc)
+        for v in acc.violations[:5]:
+            print("  %s :: %s" % (v["site"], v["detail"][:400]))
+        return bool(acc.violations)
     elif "narrow_dims" in case:
         check_narrow_dims(case["narrow_dims"], acc)
         for v in acc.violations[:5]:
